@@ -61,6 +61,14 @@ Section Geometry.
     map fst (sort_by (fun p q : nat * T N => snd p <=?! snd q) (combine (seq 0 (length a)) a)).
   Definition rank (a : list (T N)) : list nat := rank_of_perm (argsort_stable a).
 
+  (* the predicate of C17 rank_perm, evaluated on an output r: a permutation of 0..n-1 that orders the values *)
+  Definition is_perm_b (n : nat) (r : list nat) : bool :=
+    (length r =? n) && forallb (fun k => existsb (Nat.eqb k) r) (seq 0 n).
+  Definition orders_b (a : list (T N)) (r : list nat) : bool :=
+    forallb (fun i => forallb (fun j => implb (nth i r 0 <? nth j r 0) (leb (nth i a zero) (nth j a zero)))
+                              (seq 0 (length a))) (seq 0 (length a)).
+  Definition rank_okb (a : list (T N)) (r : list nat) : bool := is_perm_b (length a) r && orders_b a r.
+
   (* py: menger.py:27-51 menger_curvature (after the fix: fabs around the whole cross product)
        nom = 2.0 * fabs((x2-x1)*(y3-y2)-(y2-y1)*(x3-x2))
        temp = fabs((x2-x1)**2.0 + (y2-y1)**2.0)*fabs((x3-x2)**2.0 + (y3-y2)**2.0)*fabs((x1-x3)**2.0 + (y1-y3)**2.0)
